@@ -1274,7 +1274,12 @@ class WebSocketProtocol13(WebSocketProtocol):
             if len(data) >= 2:
                 self.close_code = struct.unpack(">H", data[:2])[0]
             if len(data) > 2:
-                self.close_reason = to_unicode(data[2:])
+                try:
+                    self.close_reason = to_unicode(data[2:])
+                except UnicodeDecodeError:
+                    # The reason must be valid UTF-8 (RFC 6455 5.5.1).
+                    self._abort()
+                    return None
             # Echo the received close code, if any (RFC 6455 section 5.5.1).
             self.close(self.close_code)
         elif opcode == 0x9:
